@@ -21,7 +21,7 @@ RULE = (
     "grids {mixed patch, antimeridian strip with nodes on +-180, fan with a node exactly on the south pole, patch with nodes on lon 0 and 1e-9 / 1e-6 degrees from "
     "the north pole, cube} x provenance axes {nodes: lonlat | xyz | both} x {face centres: none | lonlat | xyz | both} x {edge centres: none | lonlat | xyz | both} x "
     "{longitudes -180..180 | 0..360} x {radius 1 | 6371} with <= k deviations from the default vector x every ordered pair of first accesses among the 15 coordinate "
-    "properties x normalize_cartesian_coordinates() at position {never, first, between, last}. non-trivial = provenance vector with >= 1 deviation or a node at a "
+    "properties (plus 10 prefixes containing the public recomputation construct_face_centers('cartesian average'), after which, for sources that supplied centres, only the agreement of the two systems, ranges and unit length after normalisation are judged for faces) x normalize_cartesian_coordinates() at position {never, first, between, last}. non-trivial = provenance vector with >= 1 deviation or a node at a "
     "pole / on a meridian of interest; distinct = (grid, provenance, access prefix, normalize position)"
 )
 ASSUMPTIONS = [
@@ -122,7 +122,7 @@ def _pole_cap(p):
     return abs(abs(p[..., 2]) / np.linalg.norm(p, axis=-1)) > 1.0 - 3e-8
 
 
-def judge(g, m, vec, sup, P, normalized, bad):
+def judge(g, m, vec, sup, P, normalized, bad, face_position=True):
     """read all 15 properties and compare"""
     nodes, fcs, ecs, lonc, radius = vec
     vals = {}
@@ -159,17 +159,17 @@ def judge(g, m, vec, sup, P, normalized, bad):
             bad("c04:zero-vector:%s" % kind, "%s xyz contains a zero vector" % kind)
             continue
         X = xyz / nrm[:, None]
-        cap = _pole_cap(W)
+        cap = _pole_cap(W) | _pole_cap(X)  # the reported point itself may be the one inside the snapping cap (recomputed centres)
         tol = np.where(cap, 3e-8, 1e-9)
         a1 = sph.angle(D, X)
         if np.any(a1 > tol):
             i = int(np.argmax(a1 - tol))
             bad("c04:lonlat-vs-xyz:%s" % kind, "%s %d: (lon,lat)=(%.9f,%.9f) and (x,y,z)=%s differ by %.3g rad" % (kind, i, lon[i], lat[i], np.round(xyz[i], 9).tolist(), a1[i]))
-        a2 = sph.angle(D, W)
+        a2 = sph.angle(D, W) if (face_position or kind != "face") else np.zeros(len(W))
         if np.any(a2 > tol):
             i = int(np.argmax(a2 - tol))
             bad("c04:position:%s:%s" % (kind, "supplied" if kind in sup and kind != "node" else ("source" if kind == "node" else "derived")), "%s %d: reported (lon,lat)=(%.9f,%.9f), %s position (lon,lat)=(%.9f,%.9f) (%.3g rad apart)" % (kind, i, lon[i], lat[i], "supplied" if kind in sup else "expected", *[float(v) for v in sph.xyz2ll(W[i])], a2[i]))
-        must_unit = normalized or not supplied_xyz[kind]
+        must_unit = normalized or (not supplied_xyz[kind] and (face_position or kind != "face"))
         if must_unit and np.any(np.abs(nrm - 1.0) > 1e-12):
             i = int(np.argmax(np.abs(nrm - 1.0)))
             bad("c04:not-unit:%s:%s" % (kind, "after-normalize" if normalized else "derived"), "%s %d: |xyz| = %.15g" % (kind, i, nrm[i]))
@@ -195,12 +195,17 @@ def warmup(tier):
     run_case({"grid": "mixedpatch", "k": 2, "vecs": [30, 31], "tier": "quick"})
 
 
+RECOMP = "construct_face_centers(cartesian average)"
+
+
 def _prefixes(tier):
     out = [()] + [(p,) for p in PROPS]
     pairs = list(itertools.permutations(PROPS, 2))
     if tier == "quick":
         pairs = [pr for i, pr in enumerate(pairs) if i % 5 == 0]
-    return out + pairs
+    # the public recomputation of the face centres (from then on they are derived: the corner mean, in both systems)
+    rec = [(RECOMP,)] + [(RECOMP, p) for p in ("face_lon", "face_x", "face_z", "node_x")] + [(p, RECOMP) for p in ("face_lon", "face_lat", "face_x", "node_x", "edge_x")]
+    return out + pairs + rec
 
 
 def run_case(case):
@@ -236,7 +241,10 @@ def run_case(case):
                     if npos == "first":
                         g.normalize_cartesian_coordinates()
                     for i, p in enumerate(prefix):
-                        getattr(g, p)
+                        if p == RECOMP:
+                            g.construct_face_centers("cartesian average")
+                        else:
+                            getattr(g, p)
                         if npos == "between" and i == 0:
                             g.normalize_cartesian_coordinates()
                     if npos == "last":
@@ -247,12 +255,15 @@ def run_case(case):
                 normalized = False
                 if npos == "last":
                     normalized = True
-                judge(g, m, vec, sup, P, False, bad)
+                # after the public recomputation the statement fixes only what it fixes for every grid: both systems denote the same
+                # point, ranges, finiteness.  WHICH point (supplied centre kept, or corner mean) is not the statement's business when
+                # the source supplied centres; for sources without centres nothing changes (derived = corner mean)
+                judge(g, m, vec, sup, P, False, bad, face_position=not (RECOMP in prefix and "face" in sup))
                 if npos != "never":
                     # a final normalisation: every Cartesian coordinate present must now have unit length, directions unchanged
                     try:
                         g.normalize_cartesian_coordinates()
-                        judge(g, m, vec, sup, P, True, bad)
+                        judge(g, m, vec, sup, P, True, bad, face_position=not (RECOMP in prefix and "face" in sup))
                     except Exception as e:
                         bad("c04:normalize-raises:%s" % type(e).__name__, repr(e))
                 key = digest((case["grid"], foc))
